@@ -358,30 +358,32 @@ func (c *compiler) compileType(y *Type, parent Leafable, isUnion bool) error {
 
 	if y.format == val.FmtEnum || y.format == val.FmtEnumList {
 		y.enum = make(val.EnumList, len(y.enums))
+		// RFC 7950 9.6.4.2: an enum without a value gets one more than the highest so far
 		nextId := 0
 		for i, item := range y.enums {
-			if item.val > 0 {
-				nextId = item.val
-			} else {
+			if item.val <= 0 {
 				item.val = nextId
 			}
 			y.enum[i] = val.Enum{
-				Id:    nextId,
+				Id:    item.val,
 				Label: item.ident,
 			}
-			nextId++
+			if item.val >= nextId {
+				nextId = item.val + 1
+			}
 		}
 	}
 
 	if y.format == val.FmtBits || y.format == val.FmtBitsList {
+		// RFC 7950 9.7.4.2: a bit without a position gets one more than the highest so far
 		nextPos := 0
 		for _, item := range y.bits {
-			if item.Position > 0 {
-				nextPos = item.Position
-			} else {
+			if item.Position <= 0 {
 				item.Position = nextPos
 			}
-			nextPos++
+			if item.Position >= nextPos {
+				nextPos = item.Position + 1
+			}
 		}
 	}
 
